@@ -71,12 +71,6 @@ theorem C06_known_quotDen_quot (cfg : Cfg) (h : cfg.mpQuotient = false) (par : B
     Good cfg (.quot par a (.quot false b c)) = false := by
   simp [Good, forceDen, h, outLv]
 
-/-- class `power-base-power-unparenthesised` -/
-theorem C06_known_powBase (cfg : Cfg) (par : Bool) (a b c : E) :
-    Good cfg (.pow par (.pow false a b) c) = false := by
-  have : ¬ (PREC_POWER > PREC_POWER) := by omega
-  simp [Good, outLv, this]
-
 /-- class `product-factor-quotient-unparenthesised` -/
 theorem C06_known_prodQuot (cfg : Cfg) (par : Bool) (a b c : E) (hm : isMinusOne a = false) :
     Good cfg (.prod par [a, .quot false b c]) = false := by
